@@ -208,6 +208,15 @@ op('regexp_simplify', ['regexp'], ra.regexp_simplify, d_rx, out='regexp')
 op('regexp_to_nfa', ['regexp'], ra.regexp_to_nfa, d_fa, out='nfa')
 op('print_regexp', ['regexp'], rx.print_regexp, _d_text_rx(parse_regexp))
 op('print_regexp_simple', ['regexp'], rx.print_regexp_simple, _d_text_rx(parse_simple_regexp))
+# printer -> parser round trips (the pipeline the notebook generator uses)
+op('reparse_dfa', ['dfa'], lambda D: da.parse_dfa(da.print_dfa(D)), d_fa)
+op('reparse_nfa', ['nfa'], lambda N: na.parse_nfa(na.print_nfa(N)), d_fa)
+op('reparse_pda', ['pda'], lambda P: pa.parse_pda(pa.print_pda(P)), d_pda)
+op('reparse_tm', ['tm'], lambda T: snapshot(ta.parse_tm(ta.print_tm(T))), d_value)
+op('reparse_cfg', ['cfg'], lambda G: ca.parse_simple_cfg(ca.cfg_print_simple(G)), d_cfg)
+op('reparse_regexp', ['regexp'], lambda r: parse_simple_regexp(rx.print_regexp_simple(r)), d_rx)
+op('language_helpers', ['dfa'], lambda D, n: [sorted(la.language_reverse(da.dfa_words_up_to_n(D, min(n, 3)))), sorted(la.language_no_prefix(da.dfa_words_up_to_n(D, min(n, 3)))),
+                                              sorted(la.language_no_extend(da.dfa_words_up_to_n(D, min(n, 3))))], d_value, params=('n',))
 # generic
 for _k in ('dfa', 'nfa', 'pda', 'tm', 'cfg', 'regexp'):
     op('generate_language_' + _k, [_k], lambda X, n: lg.generate_language(X, min(n, 2)), d_value, params=('n',))
